@@ -1013,7 +1013,7 @@ pub fn spec(id: &str, variant: &str, cancelable: bool, thorough: bool) -> Option
             let kinds = if c13 {
                 vec![AdapterKind::InSpan, AdapterKind::InSpan, AdapterKind::EnterOnPoll, AdapterKind::InSpanEnterOnPoll, AdapterKind::TracedBoxed]
             } else {
-                vec![AdapterKind::Stream, AdapterKind::Stream, AdapterKind::Sink, AdapterKind::Sink, AdapterKind::DuplexViaStream, AdapterKind::DuplexViaSink]
+                vec![AdapterKind::Stream, AdapterKind::Stream, AdapterKind::Sink, AdapterKind::Sink, AdapterKind::DuplexViaStream, AdapterKind::DuplexViaSink, AdapterKind::StreamTwice, AdapterKind::SinkTwice]
             };
             PropSpec {
                 id: if c13 { "C13" } else { "C14" },
